@@ -18,7 +18,7 @@ CLAIMED = {
             "N<=3 emplaced elements with span lengths symbolic up to 65535 (64 when two spans are symbolic) is shown in-bounds of the exactly-sized ledger block, and data_end-data_begin <= "
             "memory_consumption. Mode B: the same bounds checks are active on every path of the C01/C09 history shapes. Generalisation to larger N is a paper argument (DESIGN 6/C02), not a solver claim.", "6/C02"),
     'C03': ("Every __builtin_assume_aligned the library relies on (llvm.assume align bundles) becomes a proof obligation, plus explicit address%A==0 assertions for every AlignAs field on the "
-            "load path, for fresh vectors (Mode A, symbolic sizes, both block-base residues) and after erase/reserve/copy/move/swap (Mode B).", "6/C03"),
+            "load path, for fresh vectors (Mode A, symbolic sizes, both block-base residues; incl. 4-byte count types and packed 8-byte objects that start or end on a 4-aligned offset) and after erase/reserve/copy/move/swap (Mode B).", "6/C03"),
     'C04': ("Order, containment, non-overlap of fields and elements, span counts and iterator.data()==reference.data_begin() asserted on numeric addresses: Mode A with symbolic sizes including 0, "
             "Mode B after erase/reserve.", "6/C04"),
     'C05': ("Layout clause: every field address equals an independent greedy layout (lowest suitably aligned address), data_end within [greedy end, rounded up to S]; exact memory_consumption for full "
@@ -31,27 +31,27 @@ CLAIMED = {
     'C08': ("get_allocator() after copy construction / copy assignment / move assignment / swap compared with the allocator_traits rules for all 16 combinations of POCCA/POCMA/POCS/select_on_container_copy_construction, "
             "equal and unequal instances; the ledger's allocator-equality check on every deallocate decides 'never owns memory from an unequal allocator'.", "6/C08"),
     'C09': ("Two vectors with independent symbolic pre-states (different capacities, budgets, fixed sizes), one of copy ctor / copy assign / move ctor / move assign / swap / self-assign+self-swap, Inv on both "
-            "against the models, then a mutation of one side (independence) and clear/assign/swap of the moved-from operand; all 11 core lists incl. trivially copyable ones, always-equal and unequal stateful allocators.", "6/C09"),
+            "against the models, then a mutation of one side (independence; the target is also filled within the capacity it reports and the byte budget it inherited) and clear / copy assignment / swap / move assignment from a vector of another allocator instance on the moved-from operand; all 11 core lists incl. trivially copyable ones, always-equal, unequal stateful and propagating allocators.", "6/C09"),
     'C10': ("reserve(n,b) with symbolic n,b (n<=capacity and n>capacity), repeated reserve, fill to the new limits under bounds checking, contents/fixed sizes/addresses compared before and after; Mode A re-run of the "
             "capacity lemma on a reserved vector.", "6/C10"),
     'C11': ("Write through each access path (case split over operator[], front/back, *it, it[n], it->, reference copies) and read back through all others incl. const paths and structured bindings; reference "
             "assignment (copy/move), swap, iter_swap between any two positions; iterator arithmetic/comparisons for symbolic offsets in [0,size()]; rotate/reverse/swap_ranges against the same algorithm on the model.", "6/C11"),
     'C12': ("ContiguousElement from reference/const_reference/rvalue reference (with and without allocator), copy/move/allocator-extended construction, copy/move assignment between different varying sizes and "
-            "allocators, swap, element<->reference assignment; values vs. model, moved-from counters, independence probes in both directions, ledgers.", "6/C12"),
+            "allocators (also into a moved-from target), swap, element<->reference assignment; values vs. model, moved-from counters, independence probes in both directions, ledgers; lists incl. two VaryingSize spans of a non-trivial type.", "6/C12"),
     'C13': ("== and != between references, const references, elements and vectors (incl. different allocator types) compared with a content-only model while fresh memory is solver-chosen junk, so padding and spare "
-            "capacity are adversarial; equal / one field differs / strict prefix / empty / different fixed sizes arise from the symbolic contents.", "6/C13"),
+            "capacity are adversarial; equal / one field differs / strict prefix / empty / moved-from / different fixed sizes arise from the symbolic contents.", "6/C13"),
     'C14': ("Relational laws (>,<=,>= via <; irreflexive, asymmetric, transitive, consistent with ==) on triples over the value domain {0,1,2}, agreement of all operand kinds, content-only dependence "
             "(same content rebuilt in other memory), vector< equals lexicographical_compare under the element-level <.", "6/C14"),
-    'C15': ("12 source/target type pairs x 12 source forms x FixedSize/VaryingSize x lengths 0..2 with symbolic source items: stored bits equal static_cast<T>(item) (z3 FP theory for int->float/double), "
+    'C15': ("14 source/target type pairs x 14 source forms (containers, node/generated ranges, arrays, pointers, move/forward/generated/reverse/segmented iterators) x FixedSize / VaryingSize / over-aligned VaryingSize with a field behind it x lengths 0..2 with symbolic source items: stored bits equal static_cast<T>(item) (z3 FP theory for int->float/double), "
             "lvalue sources unchanged, rvalue ranges and move_iterators moved from exactly once, exactly `length` items consumed (counting iterators).", "6/C15"),
     'C16': ("Numeric addresses of every element and data_begin(), and the allocator call count, snapshotted before and compared after emplace_back within capacity / pop_back / clear / reserve<=capacity / erase "
-            "(elements in front); swap, move construction and equal-allocator move assignment must not allocate.", "6/C16"),
+            "(elements in front); swap, move construction and equal-allocator move assignment must not allocate and hand over data_begin() unchanged (always-equal, stateful equal/unequal, propagating and swap-only-propagating allocators).", "6/C16"),
     'C17': ("Harness compiled with -fexceptions; the allocator throws at a solver-chosen allocation (fail the 1st, 2nd, ... k-th in turn, at most one per run); invoke/landingpad/resume and the __cxa runtime are "
-            "interpreted by the executor. After the catch: Inv on operands that must be unchanged, weaker validity on the others, re-assignability, and at scope exit 0 live blocks / 0 live objects / no double free / no terminate.", "6/C17"),
-    'C18': ("Seven ways of being empty (default-constructed, capacity 0, fresh, emptied by pop_back / erase range / clear / repeated erase) x eight follow-up operations, then reserve+emplace_back and Inv; data pointers "
+            "interpreted by the executor. After the catch: Inv on operands that must be unchanged, weaker validity on the others, re-assignability by copy and by move from another allocator instance, repetition of the failed operation, and at scope exit 0 live blocks / 0 live objects / no double free / no terminate.", "6/C17"),
+    'C18': ("Seven ways of being empty (default-constructed, capacity 0, fresh, emptied by pop_back / erase range / clear / repeated erase) x eight follow-up operations (the copies made from the empty vector are themselves reserved / filled and checked), then reserve+emplace_back and Inv; data pointers "
             "checked against the ledger; unwritten table slots and zero-byte blocks make dependence on never-written memory visible.", "6/C18"),
     'C19': ("Sufficient condition decided symbolically: every pre-existing region (vector objects, blocks, tables) is frozen, then every const operation runs (queries, element access, iteration, all six comparisons, "
-            "copy construction, element construction, copy assignment from it); a store/memcpy/deallocate into frozen memory is a violation. No write by any reader => no data race under any interleaving of any number of readers.", "6/C19"),
+            "copy construction, element construction, copy assignment from it); a store/memcpy/deallocate into frozen memory is a violation. No write by any reader => no data race under any interleaving of any number of readers. Fault schedule: the k-th copy construction of a stored object throws while the shared vector is copied.", "6/C19"),
 }
 
 NOT_APPLICABLE = {
